@@ -346,7 +346,9 @@ def r4_offsets(ck, F, R="C02-R4"):
     # ... and *after* the interval test of the same insert: the test reads how many entries precede this one since the
     # last slot (incremented first, slots land on entries interval-1, 2*interval-1, .. and interval 1 records offset 0
     # twice — seeded C09-23)
+    dab = b.debug_assert_blocks()
     tests = [site for site, st in b.sites() if site.i is not None and st["s"] == "assign" and st["rv"]["rv"] == "bin" and st["rv"]["op"] in ("Eq", "Ne", "Ge", "Gt", "Le", "Lt")
+             and site.bb not in dab and not any(m in ("debug_assert", "debug_assert_eq", "debug_assert_ne") for m in (st.get("span") or {}).get("macros", []))
              and any(is_self_field(x, "index_key_counter") for x in b._expr_of_def((site, "assign", st["rv"])).a)]
     ck.ob(R, "counter-incremented-after-test", len(inc) == 1 and len(tests) >= 1 and all(b.dominates(t_, inc[0]) and t_.bb not in b.reachable_from(inc[0].bb) for t_ in tests),
           "the interval test precedes the increment (it counts the entries before this one)", b)
